@@ -236,7 +236,7 @@ inductive Stmt where
   | grp (redirs : Redirs) (m : Nat)             -- `{ probe m; } <redirection>`: a compound command
 
 /-- the paths of `and_or.rs`, `pipeline.rs` (negation), `compound_command/{if,subshell}.rs` through these
-    fixed shapes (the general executor is `Exec.execCmd`; `Refine.lean` relates the two) -/
+    fixed shapes (the recursive version is `execN` of Errexit/Nested.lean; `fixed_shapes_are_instances` relates the two) -/
 def execStmt (fuel : Nat) (s : St) : Stmt → St × Res
   | .plain c => execSimple fuel s c
   | .ifc c a b =>
